@@ -27,7 +27,7 @@
 (***************************************************************************)
 EXTENDS Naturals, Sequences, FiniteSets, TLC, Json
 
-CONSTANTS Kinds, Schemas, Bare, TAliases, SAliases, ColNames, MaxRels, MaxItems, MaxRefs, Known, Emit, WithUnion, WithMeta, WithLiteral
+CONSTANTS Kinds, Schemas, Bare, TAliases, SAliases, ColNames, MaxRels, MaxItems, MaxRefs, Known, Emit, WithUnion, WithMeta, WithLiteral, WithForeign
 
 None == "none"
 Star == "*"
@@ -64,7 +64,10 @@ AddSub == /\ phase = "from" /\ Len(rels) < MaxRels
 ToItems == /\ phase = "from" /\ Len(rels) >= 1 /\ phase' = "items" /\ UNCHANGED <<kind, rels, items, branch2, collist, known, tk>>
 \* an item: a literal (no refs), one reference, or an expression over two references (which must carry an alias, since the
 \* display name of an un-aliased expression follows its text); a wildcard stands alone and takes no alias
-Refs == [r : 0..Len(rels), c : ColNames \cup {Star}]
+\* r = Foreign: the qualifier "zz" names nothing in the FROM scope - the analyser's documented fallback takes it for a table
+\* of that name in the default schema (C14: that table is created under the configured default like any other)
+Foreign == 9
+Refs == [r : 0..Len(rels), c : ColNames \cup {Star}] \cup (IF WithForeign THEN [r : {Foreign}, c : ColNames] ELSE {})
 RefSeqs == (IF WithLiteral THEN {<<>>} ELSE {}) \cup {<<x>> : x \in Refs}
            \cup (IF MaxRefs >= 2 THEN {<<x, y>> : x \in {z \in Refs : z.c # Star}, y \in {z \in Refs : z.c # Star}} ELSE {})
 ItemOK(it) == /\ (Len(it.refs) = 2 => it.al # None /\ it.refs[1] # it.refs[2])
@@ -119,7 +122,8 @@ SrcOfRel(i, c) == LET r == rels[i] IN
    ELSE IF SubHas(r, c) THEN {Col(TblName(r), SubSrc(r, c))} ELSE {[k |-> "subcol", t |-> r.al, c |-> c, cands |-> {}]}
 AllRelNames == {IF rels[i].k = "tbl" THEN TblName(rels[i]) ELSE rels[i].al : i \in DOMAIN rels}
 SrcOfRef(ref) ==
-   IF ref.r > 0 THEN SrcOfRel(ref.r, ref.c)
+   IF ref.r = Foreign THEN {Col("<default>.zz", ref.c)}
+   ELSE IF ref.r > 0 THEN SrcOfRel(ref.r, ref.c)
    ELSE IF Len(rels) = 1 THEN SrcOfRel(1, ref.c)
    ELSE LET S == {i \in DOMAIN rels : ref.c \in KnownCols(i)} IN
         IF S # {} THEN UNION {SrcOfRel(i, ref.c) : i \in S} ELSE {Unres(ref.c, AllRelNames)}
@@ -145,7 +149,7 @@ ValidColumns == \A j \in DOMAIN items, m \in 1..2 :
       => Cardinality({i \in DOMAIN rels : items[j].refs[m].c \in KnownCols(i)}) <= 1
 \* a qualified reference to a derived table names one of its output columns
 ValidSubRefs == \A j \in DOMAIN items, m \in 1..2 :
-   (m <= Len(items[j].refs) /\ items[j].refs[m].r > 0 /\ rels[items[j].refs[m].r].k = "sub" /\ items[j].refs[m].c # Star)
+   (m <= Len(items[j].refs) /\ items[j].refs[m].r > 0 /\ items[j].refs[m].r # Foreign /\ rels[items[j].refs[m].r].k = "sub" /\ items[j].refs[m].c # Star)
       => SubHas(rels[items[j].refs[m].r], items[j].refs[m].c)
 \* an unqualified column over a single derived table is one of its output columns
 ValidSingleSub == (Len(rels) = 1 /\ rels[1].k = "sub") =>
@@ -176,7 +180,7 @@ MapOld == Over(Over(Over(Empty, AliasPairs, 1), BarePairs, 1), FullPairs, 1)    
 Map == IF "D_ALIAS_MAP_PRECEDENCE" \in Known THEN MapOld ELSE MapIntended
 \* the qualifier text of a reference to relation i is its exposed name; the machine looks that text up
 MachineRel(i) == Map[Exposed(rels[i])]
-MachineSrcOfRef(ref) == IF ref.r > 0 THEN SrcOfRel(MachineRel(ref.r), ref.c) ELSE SrcOfRef(ref)
+MachineSrcOfRef(ref) == IF ref.r > 0 /\ ref.r # Foreign THEN SrcOfRel(MachineRel(ref.r), ref.c) ELSE SrcOfRef(ref)
 MachineFlowItem(j) == LET it == items[j] IN
    IF Len(it.refs) = 1 /\ it.refs[1].c = Star
    THEN UNION {StarOf(i) : i \in (IF it.refs[1].r > 0 THEN {MachineRel(it.refs[1].r)} ELSE DOMAIN rels)}
